@@ -164,6 +164,21 @@ impl C12Check {
                 if *lt && *gt {
                     ctx.fail(format!("law:both-less-and-greater:{}", kinds(a, b)), format!("{} vs {} on {}", a, b, imp.name()));
                 }
+                // trichotomy with the equality instruction: exactly one of a < b, a == b, a > b
+                ctx.sub_evals += 1;
+                let eq = match imp {
+                    Impl::Simple => call(&mut new_simple(), Instruction::Equal, a, Some(b)),
+                    Impl::Basic => call(&mut new_basic(), Instruction::Equal, a, Some(b)),
+                };
+                if let Ok(o) = eq {
+                    if let Ok(v) = &o.result {
+                        let e = matches!(v, V::True);
+                        let holding = [*lt, e, *gt].iter().filter(|x| **x).count();
+                        if holding != 1 {
+                            ctx.fail(format!("law:not-exactly-one-of-less-equal-greater:{}", kinds(a, b)), format!("{} vs {} on {}: < {}, == {}, > {}", a, b, imp.name(), lt, e, gt));
+                        }
+                    }
+                }
             }
         }
     }
@@ -174,6 +189,16 @@ fn numeric_pool() -> Vec<V> {
     for f in float_pool() {
         v.push(V::Float(f));
     }
+    // floats one step apart, and sums that differ from the literal in the last place (0.1 + 0.2 vs 0.3)
+    for x in [1.0f64, -1.0, 0.5, 0.3, 0.7, 100.0, 1e-17, 2147483647.0] {
+        let bits = x.to_bits();
+        v.push(V::Float(f64::from_bits(bits + 1)));
+        v.push(V::Float(f64::from_bits(bits - 1)));
+        v.push(V::Float(x));
+    }
+    v.push(V::Float(0.1 + 0.2));
+    v.push(V::Float(0.1 * 7.0));
+    v.push(V::Float(2e-17));
     for n in [0i32, 1, -1, 2, 7, 2147483647, -2147483648, 16777217] {
         for d in [-0.5f64, 0.0, 0.5] {
             v.push(V::Float(n as f64 + d));
@@ -187,10 +212,10 @@ impl Check for C12Check {
         "C12"
     }
     fn rule(&self) -> String {
-        "Phase numbers: every ordered pair of the C09 boundary lattice (187 integers) plus the float pool and int/float neighbours n-0.5, n, n+0.5 (mixed int/float pairs included); phase strings: every ordered pair of char lists of length <= 3 over {a, b, é} incl. the empty string and proper prefixes, the same for byte lists over {0, 97, 255}, all pairs of 5 chars and 4 bytes; \
+        "Phase numbers: every ordered pair of the C09 boundary lattice (187 integers) plus the float pool and int/float neighbours n-0.5, n, n+0.5, floats one step apart and sums that differ in the last place (mixed int/float pairs included); phase strings: every ordered pair of char lists of length <= 3 over {a, b, é} incl. the empty string and proper prefixes, the same for byte lists over {0, 97, 255}, all pairs of 5 chars and 4 bytes; \
          phase cross-type: every ordered pair of the 32 values of every type (C10's list) plus NaN operands; phase random: longer random strings / byte lists with shared prefixes and random numbers. \
          Each pair is evaluated with the four instructions <, <=, >, >= called directly (operands above two sentinel registers), in both orders, on both data implementations. \
-         Oracle: the natural order (numeric with exact int/float comparison; lexicographic by character / byte, shorter prefix first), a<b iff b>a, <= is the negation of >, >= the negation of <, never both < and >; not comparable combinations give false on all four; a NaN operand gives unit; one result register, sentinels intact. \
+         Oracle: the natural order (numeric with exact int/float comparison; lexicographic by character / byte, shorter prefix first), a<b iff b>a, <= is the negation of >, >= the negation of <, never both < and >, and with the equality instruction exactly one of a < b, a == b, a > b; not comparable combinations give false on all four; a NaN operand gives unit; one result register, sentinels intact. \
          Non-trivial = operands of different representation, one a proper prefix of the other, or a non-comparable combination; distinct = distinct ordered pairs."
             .to_string()
     }
